@@ -1,5 +1,6 @@
 (** C12 — property theorems only. Each is closed by [exact] of a lemma from the Proofs files and
     audited by Print Assumptions in the generated Audit file. *)
+From Coq Require Import String.
 From V.Lib Require Import Base MachInt.
 From V.Gen Require Import C12Consts.
 From V.C12 Require Import Model Spec ProofsPct ProofsB64 ProofsAmount ProofsRender ProofsAccept ProofsTotal ProofsCtors ProofsSurface ProofsAmountSpec Bridge ProofsC10.
@@ -277,6 +278,13 @@ Theorem C12_payment_new_zero_unknown_ua : forall n items la ms ot,
   forallb (fun tc => negb (shielded_tc tc)) (map (fun it => Z.of_N (fst it)) items) = true ->
   payment_new M10.addr c_can_memo c_t_only (M10.AUni n items) (Some 0) None la ms ot = Err PZeroTransparent.
 Proof. exact payment_new_zero_unknown_ua. Qed.
+
+(** Valid Base58Check strings with a 0- or 1-byte payload are refused by the concrete decoder. *)
+Theorem C12_short_base58_rejected :
+  c_dec H0 G0 (n2z (Hex.str "3QJmnh"%string)) = None /\ c_dec H0 G0 (n2z (Hex.str "4CyUtqx"%string)) = None /\
+  c_dec H0 G0 (n2z (Hex.str "1Wh4bh"%string)) = None /\
+  M10.b58check_decode (Hex.str "3QJmnh"%string) = Some [] /\ M10.b58check_decode (Hex.str "4CyUtqx"%string) = Some [28%N].
+Proof. exact short_base58_rejected. Qed.
 
 (** ** Bridge: on every well-formed case (table entries satisfy the oracle hypotheses, requests satisfy the
     type invariants), agreement of the implementation with the model implies the property on the
